@@ -895,11 +895,14 @@ fn observe(sut: &Sut, r: &mut Rng, heavy: bool, after_refresh: bool, light: bool
                 bs.push(cb(mm));
                 if !mm {
                     if let Some((n, x)) = stored.iter().find(|(_, x)| sat(op, x, &q)) {
+                        // strict comparisons: the open finding K4; <>: K5 (repaired by 1879631, so a
+                        // failure is reported as a violation); the other operators have no known class
                         let round = matches!(op, CompareOp::Lt | CompareOp::Gt);
+                        let class = if round { "C14-K4" } else if matches!(op, CompareOp::Ne) { "C14-K5" } else { "" };
                         fail(
-                            if round { "C14-K4" } else { "C14-K5" },
+                            class,
                             format!("might_match(k{}, {:?}, {:?}) = false but node {} stores {:?}", k, op, q, n, x),
-                            Some(format!("k_zone BW true {{OPS}} {} {} {} {}", k, opn, cv(&q), cb(round))),
+                            if class.is_empty() { None } else { Some(format!("k_zone BW true {{OPS}} {} {} {} {}", k, opn, cv(&q), cb(round))) },
                         );
                     }
                 }
@@ -943,10 +946,11 @@ fn observe(sut: &Sut, r: &mut Rng, heavy: bool, after_refresh: bool, light: bool
                 if !mm {
                     if let Some((e, x)) = stored_e.iter().find(|(_, x)| sat(op, x, &q)) {
                         let round = matches!(op, CompareOp::Lt | CompareOp::Gt);
+                        let class = if round { "C14-K4" } else if matches!(op, CompareOp::Ne) { "C14-K5" } else { "" };
                         fail(
-                            if round { "C14-K4" } else { "C14-K5" },
+                            class,
                             format!("edge might_match(k{}, {:?}, {:?}) = false but edge {} stores {:?}", k, op, q, e, x),
-                            Some(format!("k_zone BW false {{OPS}} {} {} {} {}", k, opn, cv(&q), cb(round))),
+                            if class.is_empty() { None } else { Some(format!("k_zone BW false {{OPS}} {} {} {} {}", k, opn, cv(&q), cb(round))) },
                         );
                     }
                 }
@@ -1539,7 +1543,8 @@ fn corpus(out: &mut Out, r: &mut Rng) {
         false,
         &[(1, i(2)), (1, i(3)), (1, f(2.5)), (1, f(3.0)), (1, i(4)), (1, f(1.5))],
     );
-    // C14-K5: Ne pruning with a second type / NaN in the column
+    // C14-K5 (repaired by 1879631: these traces must pass without an oracle failure): Ne pruning with a
+    // second type / NaN in the column
     run_trace_p(out, r, Mode::StoreBackward, &[CreateNode(vec![]), CreateNode(vec![]), SetNodeProp(0, 1, i(1)), SetNodeProp(1, 1, f(f64::NAN))], 1, "corpus:K5", false, &[(1, i(1))]);
     run_trace_p(
         out,
